@@ -368,11 +368,30 @@ def pinned_rule(ctx, facts, rid):
         if n_[0] == "inlined" and n_[1].endswith("BitAnd>::bitand"):
             txt.append(show(unstamp(n_[5])))
     blob = " ; ".join(txt)
+    # iterator-chain shape: `pinners.into_iter().map(|p| between::X_strict(p, king))`, folded with `|` and intersected with `ours`
+    mapped = {}
+    for n_, _c, _i in walk_tree(tree):
+        if n_[0] == "call" and (n_[2] or "").endswith("iterator::Iterator::map") and len(n_[3]) == 2:
+            src_set, clos = show(unstamp(n_[3][0])), unstamp(n_[3][1])
+            if clos[0] == "agg" and clos[1] == "closure" and clos[2]:
+                for cf in facts.instances(clos[2]):
+                    for _bi, t in cf.body.calls():
+                        tgt = (t["f"].get("inst") or "")
+                        if tgt.startswith("owlchess::between::") and tgt.endswith("_strict"):
+                            king_ok = any(show(unstamp(x)) in ("king", "&king") for x in clos[3])
+                            mapped[tgt.split("::")[-1].split("_")[0]] = (src_set, king_ok)
+    ret = [x[1] for x in tree if x[0] == "ret"]
+    ret_txt = show(unstamp(ret[0])) if ret else ""
+    folded = "fold" in ret_txt and "color(b, side)" in ret_txt and "BitAnd" in ret_txt
     for geom, sl in (("bishop", "piece_diag"), ("rook", "piece_line")):
         a = "%s_xray(b, color(b, side), king)" % geom
         ok1 = any(a in t and ("%s(b, phi(_0))" % sl) in t for t in txt)
         ok2 = any(("%s_strict(" % geom) in t and "king)" in t and "color(b, side)" in t for t in txt)
         wrong = any(("%s_strict(" % geom) in t and ("%s_xray" % ("rook" if geom == "bishop" else "bishop")) in t for t in txt)
+        if not ok2 and geom in mapped and folded:
+            src_set, king_ok = mapped[geom]
+            ok2 = king_ok and a in src_set and ("%s(b, " % sl) in src_set
+            wrong = wrong or ("%s_xray" % ("rook" if geom == "bishop" else "bishop")) in src_set
         r.check(ok1 and ok2 and not wrong, "pinned/" + geom,
                 "pinned(): %s pins are not computed as %s & %s(opponent) -> between::%s_strict(p, king) & ours: %s" % (geom, a, sl, geom, blob),
                 site=ctx.site(fn), what="%s x-ray & %s(inv) -> %s_strict(p,king) & ours" % (geom, sl, geom))
@@ -402,6 +421,77 @@ def pinned_rule(ctx, facts, rid):
             want = ("OR", frozenset([("PS", cell(c, pieces[0])), ("PS", cell(c, pieces[1]))]))
             r.check(got == want, "%s(%s)" % (nm, "WB"[c]), "%s(%s) = %s, expected the union of the two slider sets" % (nm, "WB"[c], got),
                     site=ctx.site(f3), what="%s(%s)" % (nm, "WB"[c]))
+
+
+def _bitwise_equal(expr, want_text):
+    """Is the bitboard expression `expr` the same per-square boolean function of its atoms as the expected text
+    (a parenthesised BitXor/BitOr/BitAnd/Not expression over the same atoms)? Truth table over all atom assignments."""
+    from itertools import product as _prod
+
+    def parse(txt):
+        txt = txt.strip()
+        if txt.startswith("Not(") and txt.endswith(")") and _balanced(txt[4:-1]):
+            return ("not", parse(txt[4:-1]))
+        if txt.startswith("(") and txt.endswith(")") and _balanced(txt[1:-1]):
+            inner = txt[1:-1]
+            depth = 0
+            for i in range(len(inner)):
+                ch = inner[i]
+                depth += ch == "("
+                depth -= ch == ")"
+                if depth == 0:
+                    for op in (" BitXor ", " BitOr ", " BitAnd "):
+                        if inner.startswith(op, i):
+                            return (op.strip(), parse(inner[:i]), parse(inner[i + len(op):]))
+            return ("atom", txt)
+        return ("atom", txt)
+
+    def of_expr(e):
+        if e[0] == "bin" and e[1] in ("BitXor", "BitOr", "BitAnd"):
+            return (e[1], of_expr(e[2]), of_expr(e[3]))
+        if e[0] == "un" and e[1] == "Not":
+            return ("not", of_expr(e[2]))
+        return ("atom", show(e))
+
+    def atoms(t, out):
+        if t[0] == "atom":
+            out.add(t[1])
+        else:
+            for x in t[1:]:
+                atoms(x, out)
+        return out
+
+    def ev(t, env):
+        if t[0] == "atom":
+            if t[1] == "0":
+                return 0
+            if t[1] == "18446744073709551615":
+                return 1
+            return env[t[1]]
+        if t[0] == "not":
+            return 1 - ev(t[1], env)
+        a, b = ev(t[1], env), ev(t[2], env)
+        return {"BitXor": a ^ b, "BitOr": a | b, "BitAnd": a & b}[t[0]]
+    t1, t2 = of_expr(expr), parse(want_text)
+    names = sorted(atoms(t1, set()) | atoms(t2, set()) - {"0", "18446744073709551615"})
+    names = [n for n in names if n not in ("0", "18446744073709551615")]
+    if len(names) > 10:
+        return False
+    for vals in _prod((0, 1), repeat=len(names)):
+        env = dict(zip(names, vals))
+        if ev(t1, env) != ev(t2, env):
+            return False
+    return True
+
+
+def _balanced(s):
+    d = 0
+    for ch in s:
+        d += ch == "("
+        d -= ch == ")"
+        if d < 0:
+            return False
+    return d == 0
 
 
 def checker_rule(ctx, facts, rid):
@@ -441,6 +531,8 @@ def checker_rule(ctx, facts, rid):
             for k, (truth, lab) in conds.items():
                 if "mv.kind" in k and "5" in k:
                     is_ep = truth if " Eq " in k else (not truth)
+                elif k.startswith("discr(") and "mv.kind" in k:
+                    is_ep = (lab != "else" and 5 in lab)
             src, dst = "(1 Shl mv.src)", "(1 Shl mv.dst)"
             allx = "**self.src.all"
             if is_king:
@@ -461,6 +553,10 @@ def checker_rule(ctx, facts, rid):
                 want = ["self", "*self.king", "((%s BitXor %s) BitOr %s)" % (src, allx, dst), "Not(%s)" % dst]
                 key = "other"
             ok = neg and len(a) == 4 and all((x in w) if isinstance(w, tuple) else (x == w) for x, w in zip(a, want))
+            if neg and len(a) == 4 and not ok and a[0] == want[0] and a[1] == want[1]:
+                # same sets written differently: compare the two set arguments as boolean functions of their atoms, bit by bit
+                got_e = [unstamp(path_value(x, choices)) for x in calls[0][3][2:4]]
+                ok = all(_bitwise_equal(g, (w[0] if isinstance(w, tuple) else w)) for g, w in zip(got_e, want[2:4]))
             r.check(ok, "is_legal[%s]/%s" % (tag, key),
                     "is_legal (%s path) returns %s over is_attacked(%s); expected !is_attacked(%s): the occupancy must lose the source and "
                     "gain the destination, and every captured man (destination; the pawn taken en passant) must be excluded from the "
